@@ -184,6 +184,9 @@ MUTANTS = [
     ("c19-first-available-by-address", ["C19"], N + "source.py",
      "                        self.out_edge_events = [edge.reserve_put() for edge in self.out_edges]",
      "                        self.out_edge_events = [edge.reserve_put() for edge in sorted(self.out_edges, key=id)]"),
+    ("c18-rprs-average-counts-reservations", ["C18"], B + "reservable_priority_req_store.py",
+     "        self._last_num_items = len(self.items)\n        # Optionally, update stats in real time",
+     "        self._last_num_items = len(self.items) + len(self.reservations_get)\n        # Optionally, update stats in real time"),
 ]
 
 
